@@ -176,7 +176,7 @@ def step (st : State) (w : List String) : State × String :=
   | ["udp", "new", mode, cap, _pat] =>
     match cap.toNat? with
     | some c =>
-      let inl := mode == "inline"
+      let inl := mode == "inline" || mode == "winline"
       ({ st with udp := some { inline := inl, cap := c } }, s!"ok inline={boolStr inl}")
     | none => (st, "bad-op")
   | "udp" :: rest =>
@@ -241,6 +241,37 @@ def step (st : State) (w : List String) : State × String :=
     let idl := (ids.splitOn ",").filterMap String.toNat?
     let res := shareAll { addr := 1, id := 0, body := 7 } (idl.map fun i => (i, true)) 2
     (st, s!"ids={",".intercalate (res.map fun m => toString m.id)} ownq=t")
+  | ["usrv", "cookie", _mode, pat] =>
+    let qs : List EdnsReq := (pat.toList.zipIdx).map fun (c, i) =>
+      if c == 'c' then { hasOpt := true, cookie := some (i + 1), doBit := i % 3 == 0 }
+      else if c == 'n' then { hasOpt := true } else { hasOpt := false }
+    let outs := (ednsMany {} qs).map fun o => match o with
+      | some v => "c00c1e" ++ String.ofList ((List.range 10).map fun d => nibble ((v / 16 ^ (9 - d)) % 16))
+      | none => "-"
+    (st, ",".intercalate outs)
+  | ["carrier", "run", ops] =>
+    let step := fun (acc : Carrier × List String) (op : String) =>
+      let (c, out) := acc
+      let k := ((op.drop 1).toString.toNat?).getD 0
+      if op.startsWith "p" then let (c', ok) := c.tryPin k (k + 100); (c', out ++ [boolStr ok])
+      else if op.startsWith "q" then (c, out ++ [match c.pinned k with | some v => s!"some{v - 100}" | none => "none"])
+      else if op == "v" then let (c', ok) := c.trySetProvider; (c', out ++ [boolStr ok])
+      else if op == "w" then (c, out ++ [boolStr c.provider])
+      else (c.reset 0, out ++ ["ok"])
+    (st, ",".intercalate ((ops.splitOn ",").foldl step ({}, [])).2)
+  | ["fo", "run", id, rd, prc, modes, _proto] =>
+    match id.toNat?, parseBool rd, prc.toNat? with
+    | some i, some r, some rc =>
+      let ml := if modes == "-" then [] else modes.splitOn ","
+      let outs : List FoOutcome := (ml.zipIdx).map fun (m, k) =>
+        if m == "sf" then FoOutcome.resp (50000 + k) 2 0
+        else if m == "ok" then FoOutcome.resp (50000 + k) 0 (10 + k)
+        else if m == "nx" then FoOutcome.resp (50000 + k) 3 0
+        else FoOutcome.err
+      let w := failoverWrite outs { id := i, rcode := rc, mark := 0 } r
+      (st, s!"n=1 id={w.id} rcode={w.rcode} a={w.mark}")
+    | _, _, _ => (st, "bad-op")
+  | ["pool", "escape", _seed, _rounds] => (st, "unmodelled")
   | ["doq", "conn", order, behs] =>
     -- goroutine i serves stream i; handlers complete in the scripted order
     let bl := behs.splitOn ","
